@@ -35,7 +35,9 @@ def run(chk):
         pat = " ".join(TEXT[x] for x in c["pat"])
         inst = " ".join(INST[x] for x in c["pat"])
         # unrelated usable macros are defined before and after the pattern under test
-        defs = "// macro library\n\nDEFINE PRIO 5 UNREL AS ) ) END DEFINE\nDEFINE\n  %s\nAS ) END DEFINE\nDEFINE PRIO 5 UNRELB AS ) ) ) END DEFINE\n" % pat
+        # ... and a second, always ambiguous macro (it ends in a statement-sequence slot) directly behind the pattern under test
+        defs = ("// macro library\n\nDEFINE PRIO 5 UNREL AS ) ) END DEFINE\nDEFINE\n  %s\nAS ) END DEFINE\n"
+                "DEFINE PRIO 3 AMBIG <P> AS ) END DEFINE\nDEFINE PRIO 5 UNRELB AS ) ) ) END DEFINE\n" % pat)
         inputs.append({"i": i, "files": {"m": 'include "defs"\n%s\nUNREL\nUNRELB\n' % inst, "defs": defs}, "main": "m", "passes": [64]})
         c["_inst"] = inst
     got = {}
@@ -54,9 +56,13 @@ def run(chk):
             continue
         n += 1
         run0 = r["runs"][0]
-        nonlr = [e for e in run0["errs"] if e[0] == NON_LR]
+        allnonlr = [e for e in run0["errs"] if e[0] == NON_LR]
         kinds = [t["k"] for t in run0["toks"] if t["k"] != K["T_EOF"]]
         problems = []
+        # the fixed ambiguous macro directly behind the pattern is always reported (its first token stands at defs:7)
+        if not any((e[1], e[2]) == ("defs", 7) for e in allnonlr):
+            problems.append("the ambiguous macro defined directly behind the pattern under test was not reported as non-linear")
+        nonlr = [e for e in allnonlr if (e[1], e[2]) != ("defs", 7)]
         if c["conflict"]:
             if not nonlr:
                 problems.append("pattern is not prefix-deterministic (canonical LR(1) conflict) but no non-linear error was reported")
@@ -72,7 +78,7 @@ def run(chk):
                 problems.append("pattern is prefix-deterministic but was reported as non-linear")
             elif kinds != [K["PAREN_CLOSE"]] * 6:
                 problems.append("accepted macro: expected its use and the unrelated macros to be rewritten to six ')', got kinds %s" % kinds)
-            if run0["errs"] and not nonlr:
+            if len(run0["errs"]) > len(allnonlr):
                 problems.append("unexpected errors %s" % run0["errs"])
         if problems:
             chk.violation("c12:%s" % " ".join(c["pat"]), "pattern  %s  : %s" % (" ".join(TEXT[x] for x in c["pat"]), "; ".join(problems)),
